@@ -9,6 +9,11 @@
 //!
 //! Stream `files` (env C27_STREAM=files): whole-file corruptions through the real
 //! `Store::status` and `StoredPoint::open` + iteration (hook `StoredPoint::verif_open`).
+//!
+//! Stream `archives` (env C27_STREAM=archives): corrupted RRDP archive FILES (the memory-mapped format of
+//! src/utils/archive.rs as used by src/collector/rrdp/archive.rs) through every reader entry point of
+//! `RrdpArchive`.  Oracle only (no panic, no process death, no endless iteration, bounded allocation): there
+//! is no byte-level model of the archive reader.  See `mod archives`.
 #[path = "../binrec.rs"]
 mod binrec;
 
@@ -30,6 +35,12 @@ static CUR: AtomicUsize = AtomicUsize::new(0);
 static BASE: AtomicUsize = AtomicUsize::new(0);
 static PEAK: AtomicUsize = AtomicUsize::new(0);      // peak of live bytes above BASE while ON
 static LARGEST: AtomicUsize = AtomicUsize::new(0);   // largest single request while ON
+/// Requests above CAP made while ON are refused (null => `handle_alloc_error` => abort), after having been
+/// recorded.  Only the archives worker sets it: a cyclic chain makes `verify` grow a Vec without end, and the
+/// machine is shared.
+static CAP: AtomicUsize = AtomicUsize::new(usize::MAX);
+
+fn refused(size: usize) -> bool { ON.load(SeqCst) && size > CAP.load(SeqCst) }
 
 fn note(size: usize) {
     let cur = CUR.fetch_add(size, SeqCst) + size;
@@ -39,10 +50,17 @@ fn note(size: usize) {
     }
 }
 unsafe impl GlobalAlloc for Counting {
-    unsafe fn alloc(&self, l: Layout) -> *mut u8 { note(l.size()); System.alloc(l) }
-    unsafe fn alloc_zeroed(&self, l: Layout) -> *mut u8 { note(l.size()); System.alloc_zeroed(l) }
+    unsafe fn alloc(&self, l: Layout) -> *mut u8 {
+        if refused(l.size()) { LARGEST.fetch_max(l.size(), SeqCst); return std::ptr::null_mut() }
+        note(l.size()); System.alloc(l)
+    }
+    unsafe fn alloc_zeroed(&self, l: Layout) -> *mut u8 {
+        if refused(l.size()) { LARGEST.fetch_max(l.size(), SeqCst); return std::ptr::null_mut() }
+        note(l.size()); System.alloc_zeroed(l)
+    }
     unsafe fn dealloc(&self, p: *mut u8, l: Layout) { CUR.fetch_sub(l.size(), SeqCst); System.dealloc(p, l) }
     unsafe fn realloc(&self, p: *mut u8, l: Layout, new: usize) -> *mut u8 {
+        if refused(new) { LARGEST.fetch_max(new, SeqCst); return std::ptr::null_mut() }
         CUR.fetch_sub(l.size(), SeqCst);
         note(new);
         System.realloc(p, l, new)
@@ -183,6 +201,7 @@ fn uri_enc(u: &[u8]) -> Vec<u8> { let mut v = (u.len() as u32).to_be_bytes().to_
 
 fn gen(rng: &mut Rng, tier: &str) -> Vec<(String, Value)> {
     if std::env::var("C27_STREAM").as_deref() == Ok("files") { return files::gen(rng, tier) }
+    if std::env::var("C27_STREAM").as_deref() == Ok("archives") { return archives::gen(rng, tier) }
     let thorough = tier == "thorough";
     let mut cases = Vec::new();
     let mut big = Vec::new();     // expensive to evaluate inside Coq; spread over the list at the end
@@ -321,6 +340,7 @@ fn gen(rng: &mut Rng, tier: &str) -> Vec<(String, Value)> {
 
 fn run(input: &Value) -> CaseOut {
     let kind = input["kind"].as_str().unwrap();
+    if kind == "archive" { return archives::run_case(input) }
     let data = unhex(input["bytes"].as_str().unwrap());
     if kind.starts_with("file_") { return files::run_case(kind, &data) }
     let (res_coq, res_json, largest, peak) = match exec(kind, &data) {
@@ -462,7 +482,505 @@ mod files {
     }
 }
 
+
+//------------ RRDP archive files through every reader of RrdpArchive ------------------------
+//
+// Oracle-only stream: a case is a byte string put where an archive file is expected; the worker opens it with
+// the real `RrdpArchive` and calls every reader entry point, each under `catch_unwind`, under the counting
+// allocator.  Nothing is compared with a model (the byte-level reader of utils/archive.rs is not modelled).
+
+mod archives {
+    use super::*;
+    use routinator::collector::RrdpArchive;
+    use routinator::utils::archive::Archive;
+    use rpki::{rrdp, uri};
+    use std::path::PathBuf;
+    use std::str::FromStr;
+    use std::sync::mpsc::{channel, Receiver, RecvTimeoutError};
+    use std::sync::Arc;
+    use std::time::{Duration, Instant};
+
+    const KEY: [u8; 16] = [0, 1, 2, 3, 4, 5, 6, 7, 8, 9, 10, 11, 12, 13, 14, 15];
+    const HDR: usize = 33;            // ObjectHeader::SIZE: size, next, is_empty, name_len, data_len
+    const META: usize = 32;           // RrdpObjectMeta::SIZE
+    const FILE_HDR: usize = 30;       // magic (6) + hash key (16) + bucket count (8)
+    /// The worker refuses single allocations above this (recorded first); far above the oracle's bound.
+    const ALLOC_CAP: usize = 512 << 20;
+    /// `objects()` of a file of a few KiB that yields this many items does not end.
+    const ITER_CAP: u64 = 200_000;
+    const ABSENT: &str = "rsync://example.net/repo/ca/never-published.roa";
+
+    //--- compact input encoding: a list of hex strings and [count, byte] runs
+
+    pub fn rle(data: &[u8]) -> Value {
+        let mut out: Vec<Value> = Vec::new();
+        let mut lit: Vec<u8> = Vec::new();
+        let mut i = 0;
+        while i < data.len() {
+            let b = data[i];
+            let mut j = i;
+            while j < data.len() && data[j] == b { j += 1 }
+            if j - i >= 12 {
+                if !lit.is_empty() { out.push(json!(hex(&lit))); lit.clear(); }
+                out.push(json!([j - i, b]));
+            } else { lit.extend_from_slice(&data[i..j]); }
+            i = j;
+        }
+        if !lit.is_empty() { out.push(json!(hex(&lit))); }
+        Value::Array(out)
+    }
+    pub fn unrle(v: &Value) -> Vec<u8> {
+        if let Some(s) = v.as_str() { return unhex(s) }
+        let mut out = Vec::new();
+        for item in v.as_array().expect("bytes: hex string or list") {
+            match item {
+                Value::String(s) => out.extend(unhex(s)),
+                Value::Array(a) => out.extend(std::iter::repeat(a[1].as_u64().unwrap() as u8).take(a[0].as_u64().unwrap() as usize)),
+                _ => panic!("bad run"),
+            }
+        }
+        out
+    }
+
+    //--- valid archives made by the real code
+
+    pub struct Base { tag: String, bytes: Vec<u8>, names: Vec<String>, nb: usize, headers: Vec<(usize, usize, bool)> }
+
+    fn rsync(s: &str) -> uri::Rsync { uri::Rsync::from_str(s).expect("rsync uri") }
+    fn ok<T, E>(r: Result<T, E>, what: &str) -> T { match r { Ok(x) => x, Err(_) => panic!("base archive: {} failed", what) } }
+    fn rd64(b: &[u8], at: usize) -> u64 { u64::from_ne_bytes(b[at..at + 8].try_into().unwrap()) }
+
+    /// Walks the file from the end of the index by header sizes: (start, size, is_empty) of every block.
+    fn walk(b: &[u8], nb: usize) -> Vec<(usize, usize, bool)> {
+        let mut pos = FILE_HDR + 8 * (nb + 1);
+        let mut v = Vec::new();
+        while pos < b.len() {
+            let size = rd64(b, pos) as usize;
+            assert!(size >= HDR && pos + size <= b.len(), "base archive does not tile");
+            v.push((pos, size, b[pos + 16] == 1));
+            pos += size;
+        }
+        assert_eq!(pos, b.len(), "base archive does not tile");
+        v
+    }
+
+    /// Creates an archive with `nb` buckets and a fixed hash key (hook `verif_create_with_file`; the production
+    /// constructor picks a random key and 1024 buckets), then fills it through the real `RrdpArchive` writer:
+    /// objects of several sizes (empty, tiny, multi-page, a larger one), a repository state, then updates that
+    /// move objects, an in-place update, deletions and a publish that reuses freed space.
+    pub fn make_base(tag: &str, nb: usize, variant: u64, big: usize) -> Base {
+        let dir = tempfile::tempdir().expect("tempdir");
+        let path = dir.path().join("base.bin");
+        {
+            let file = std::fs::OpenOptions::new().read(true).write(true).create_new(true).open(&path).unwrap();
+            drop(ok(Archive::<()>::verif_create_with_file(file, KEY, nb), "create"));
+        }
+        let names: Vec<String> = (0..8).map(|i| match i {
+            0 => format!("rsync://example.net/repo/ca/v{}/empty.crl", variant),
+            1 => format!("rsync://example.net/repo/ca/v{}/a.roa", variant),
+            2 => format!("rsync://example.net/repo/ca/v{}/grows-and-moves-to-the-end-of-the-file.mft", variant),
+            3 => format!("rsync://example.net/repo/ca/v{}/larger.cer", variant),
+            4 => format!("rsync://example.net/repo/ca/v{}/deleted-early.roa", variant),
+            5 => format!("rsync://example.net/repo/ca/v{}/deleted-late.asa", variant),
+            6 => format!("rsync://example.net/repo/ca/v{}/reuses-freed-space.roa", variant),
+            _ => format!("rsync://example.net/repo/ca/v{}/x/y/z/{}.gbr", variant, "n".repeat(60)),
+        }).collect();
+        let content = |i: usize, round: u8| -> Vec<u8> {
+            let len = match (i, round) { (0, _) => 0, (1, _) => 5, (2, 0) => 300, (2, _) => 900, (3, _) => big, (4, _) => 100,
+                                         (5, _) => 600, (6, _) => 50, _ => 230 };
+            if i == 1 { return (0..len).map(|k| (k as u8).wrapping_mul(37) ^ round).collect() }
+            vec![0x41 + i as u8 + 8 * round; len]
+        };
+        let state = |serial: u64, deltas: u64| RrdpArchive::verif_state_new(
+            rpki::uri::Https::from_str("https://example.net/rrdp/notification.xml").unwrap(),
+            uuid::Uuid::from_u128(0xa1a2a3a4b1b2c1c2d1d2d3d4d5d6d7d8u128), serial, 1_700_000_000, 1_700_100_000,
+            Some(1_699_999_000), Some(bytes::Bytes::from_static(b"\"etag-1\"")),
+            (0..deltas).map(|k| (serial - k, rrdp::Hash::from_data(&[k as u8]))).collect());
+        {
+            let mut a = ok(RrdpArchive::try_open(Arc::new(path.clone())), "try_open").expect("base archive exists");
+            for i in [0usize, 1, 2, 3, 4, 5, 7] { ok(a.publish_object(&rsync(&names[i]), &content(i, 0)), "publish"); }
+            ok(a.publish_state(&state(40, 2)), "publish_state");
+            ok(a.update_object(&rsync(&names[2]), rrdp::Hash::from_data(&content(2, 0)), &content(2, 1)), "update (move)");
+            ok(a.delete_object(&rsync(&names[4]), rrdp::Hash::from_data(&content(4, 0))), "delete");
+            ok(a.update_object(&rsync(&names[1]), rrdp::Hash::from_data(&content(1, 0)), &content(1, 1)), "update (in place)");
+            ok(a.update_state(&state(47, 9)), "update_state");
+            ok(a.publish_object(&rsync(&names[6]), &content(6, 0)), "publish (reuse)");
+            ok(a.delete_object(&rsync(&names[5]), rrdp::Hash::from_data(&content(5, 0))), "delete");
+        }
+        let bytes = std::fs::read(&path).unwrap();
+        // the file must be a valid archive for the real reader, with chains and free blocks
+        let stats = ok(RrdpArchive::verify(&path), "verify");
+        assert!(stats.object_count == 7 && stats.empty_count >= 2, "base archive: {} objects, {} free blocks", stats.object_count, stats.empty_count);
+        {
+            let a = ok(RrdpArchive::open(Arc::new(path.clone())), "open");
+            assert!(ok(a.load_state(), "load_state").serial == 47);
+            for i in [0usize, 1, 2, 3, 6, 7] {
+                let round = if i == 1 || i == 2 { 1 } else { 0 };
+                assert!(ok(a.load_object(&rsync(&names[i])), "load").as_deref() == Some(&content(i, round)[..]));
+            }
+            for i in [4usize, 5] { assert!(ok(a.load_object(&rsync(&names[i])), "load").is_none()); }
+            assert_eq!(ok(a.objects(), "objects").filter(|x| x.is_ok()).count(), 6);
+        }
+        let headers = walk(&bytes, nb);
+        Base { tag: tag.to_string(), bytes, names, nb, headers }
+    }
+
+    //--- generator
+
+    fn acase(class: &str, base: &Base, data: &[u8]) -> (String, Value) {
+        let mut names = base.names.clone();
+        names.push(ABSENT.to_string());
+        (format!("{}.{}", class, base.tag), json!({"kind": "archive", "names": names, "bytes": rle(data)}))
+    }
+
+    fn put64(d: &mut [u8], at: usize, v: u64) { d[at..at + 8].copy_from_slice(&v.to_ne_bytes()); }
+
+    /// The 8-byte fields of the file: (site, offset, offset at which the bytes the field measures begin).
+    fn fields(base: &Base, all_index: bool) -> Vec<(String, usize, usize)> {
+        let b = &base.bytes;
+        let mut v = vec![("bucket_count".to_string(), 22, FILE_HDR)];
+        let mut zero = 0;
+        for i in 0..=base.nb {
+            let at = FILE_HDR + 8 * i;
+            let used = rd64(b, at) != 0;
+            if !used { zero += 1; }
+            if all_index || used || i == base.nb || zero <= 3 {
+                v.push((if i == base.nb { "index.empty".to_string() } else { "index".to_string() }, at, at + 8));
+            }
+        }
+        for &(s, _, _) in &base.headers {
+            let name_len = rd64(b, s + 17) as usize;
+            v.push(("size".into(), s, s));
+            v.push(("next".into(), s + 8, s));
+            v.push(("name_len".into(), s + 17, s + HDR));
+            v.push(("data_len".into(), s + 25, (s + HDR + name_len + META).min(b.len())));
+        }
+        v
+    }
+
+    fn mutations(cases: &mut Vec<(String, Value)>, rng: &mut Rng, base: &Base, full: bool, thorough: bool) {
+        let b = &base.bytes;
+        let len = b.len();
+        let idx_end = FILE_HDR + 8 * (base.nb + 1);
+        let used_index: Vec<usize> = (0..=base.nb).map(|i| FILE_HDR + 8 * i).filter(|&at| rd64(b, at) != 0).collect();
+        cases.push(acase("valid", base, b));
+        { let mut d = b.clone(); d.extend(gen_bytes(rng, 7)); cases.push(acase("valid.trailing", base, &d)); }
+
+        // truncations: the whole header/index region (sampled in a 1024-bucket index except around entries in use),
+        // around every object header, the last bytes, a sample elsewhere
+        let mut cuts = std::collections::BTreeSet::new();
+        for c in 0..=(idx_end + 2).min(len) {
+            let near_used = used_index.iter().any(|&at| c + 1 >= at && c <= at + 9);
+            if full || c <= FILE_HDR + 10 || near_used || c + 10 >= idx_end || rng.chance(1, 64) { cuts.insert(c); }
+        }
+        for &(s, _, _) in &base.headers {
+            for c in s.saturating_sub(2)..=(s + HDR + 2).min(len) { cuts.insert(c); }
+            let name_len = rd64(b, s + 17) as usize;
+            for c in [s + HDR + name_len, s + HDR + name_len + 1, s + HDR + name_len + META, s + HDR + name_len + META + 1] { if c < len { cuts.insert(c); } }
+        }
+        for c in len.saturating_sub(4)..len { cuts.insert(c); }
+        for _ in 0..(if thorough { 200 } else { 40 }) { cuts.insert(rng.below(len as u64) as usize); }
+        for c in cuts { if c < len { cases.push(acase("truncation", base, &b[..c])); } }
+
+        // single-byte corruptions: header/index region, every byte of every object header, a sample of name, meta
+        // and data positions
+        let mut positions = std::collections::BTreeSet::new();
+        for p in 0..idx_end {
+            let in_used = used_index.iter().any(|&at| p >= at && p < at + 8);
+            if full || p < FILE_HDR || in_used || (thorough && rng.chance(1, 40)) { positions.insert(p); }
+        }
+        for (k, &(s, _, _)) in base.headers.iter().enumerate() {
+            for p in s..s + HDR { if full || thorough || k < 2 || p >= s + 16 { positions.insert(p); } }
+            if full { for p in [s + HDR, s + HDR + 1] { if p < len { positions.insert(p); } } }
+        }
+        if full { for _ in 0..(if thorough { 200 } else { 40 }) { positions.insert(rng.below(len as u64) as usize); } }
+        for p in positions {
+            let orig = b[p];
+            let mut alts = vec![orig ^ 1, orig ^ 0x80, 0xFF, 0x00];
+            if !full && !thorough { alts.truncate(3); }
+            alts.sort(); alts.dedup();
+            for a in alts {
+                if a == orig { continue }
+                let mut d = b.clone(); d[p] = a;
+                let class = if p < FILE_HDR { "corruption.byte.file_header" } else if p < idx_end { "corruption.byte.index" }
+                            else if base.headers.iter().any(|&(s, _, _)| p >= s && p < s + HDR) { "corruption.byte.object_header" }
+                            else { "corruption.byte.payload" };
+                cases.push(acase(class, base, &d));
+            }
+        }
+
+        // 8-byte fields overwritten: extremes, values around the file length, around what is left behind the
+        // field's payload start, and lengths that make start + len wrap around to a small end
+        for (site, at, payload) in fields(base, full) {
+            let left = (len - payload) as u64;
+            let mut vals: Vec<u64> = vec![0, 1, 1 << 31, 1 << 32, (1 << 63) - 1, 1 << 63, u64::MAX - 1, u64::MAX,
+                len as u64 - 2, len as u64 - 1, len as u64, len as u64 + 1, len as u64 + 2,
+                left.wrapping_sub(1), left, left + 1,
+                0u64.wrapping_sub(payload as u64), 0u64.wrapping_sub(payload as u64) + 16, 0u64.wrapping_sub(payload as u64).wrapping_sub(1)];
+            if !full && !thorough { vals.retain(|v| *v < 2 || *v >= (1 << 31)); }
+            vals.sort(); vals.dedup();
+            let orig = rd64(b, at);
+            for v in vals {
+                if v == orig { continue }
+                let mut d = b.clone(); put64(&mut d, at, v);
+                cases.push(acase(&format!("field.{}", site), base, &d));
+            }
+            // pointers: to the block itself (cycle), to the first block, into the middle of a block
+            if site == "next" || site.starts_with("index") {
+                let first = base.headers[0].0 as u64;
+                let me = if site == "next" { (at - 8) as u64 } else { base.headers[base.headers.len() / 2].0 as u64 };
+                for v in [me, first, first + 40, base.headers.last().unwrap().0 as u64] {
+                    if v == orig { continue }
+                    let mut d = b.clone(); put64(&mut d, at, v);
+                    cases.push(acase(&format!("pointer.{}", site), base, &d));
+                }
+            }
+        }
+
+        // 0xFF- and zero-filled blocks of 8/16/64 bytes at every object header, and over its two length fields
+        for &(s, _, _) in &base.headers {
+            for fill in [0xFFu8, 0x00] {
+                for n in [8usize, 16, 64] {
+                    let mut d = b.clone();
+                    let end = (s + n).min(len);
+                    for x in &mut d[s..end] { *x = fill; }
+                    cases.push(acase("fill.header", base, &d));
+                }
+                let mut d = b.clone();
+                for x in &mut d[s + 17..s + HDR] { *x = fill; }
+                cases.push(acase("fill.lengths", base, &d));
+            }
+        }
+    }
+
+    pub fn gen(rng: &mut Rng, tier: &str) -> Vec<(String, Value)> {
+        let thorough = tier == "thorough";
+        let mut cases = Vec::new();
+        // a small index (3 buckets: chains in every bucket) explored in full; the production bucket count (1024)
+        // with the header in full and the index sampled
+        let small = make_base("nb3", 3, 0, 2000);
+        mutations(&mut cases, &mut rng.fork(), &small, true, thorough);
+        let prod = make_base("nb1024", 1024, 1, 5000);
+        mutations(&mut cases, &mut rng.fork(), &prod, false, thorough);
+        if thorough {
+            for (i, nb) in [1usize, 2, 5, 8].into_iter().enumerate() {
+                let b = make_base(&format!("nb{}", nb), nb, 2 + i as u64, 3000 + 700 * i);
+                mutations(&mut cases, &mut rng.fork(), &b, true, false);
+            }
+        }
+        // arbitrary byte strings: empty, random, random behind the valid magic, behind a valid header, behind a valid
+        // header and index
+        cases.push(acase("random.empty", &small, &[]));
+        let n = if thorough { 400 } else { 80 };
+        for i in 0..n {
+            let mut r = rng.fork();
+            let keep = match i % 4 { 0 => 0, 1 => 6, 2 => FILE_HDR, _ => FILE_HDR + 8 * (small.nb + 1) };
+            let mut d = small.bytes[..keep].to_vec();
+            let extra = match r.below(3) { 0 => r.below(12), 1 => r.below(80), _ => r.below(400) } as usize;
+            let mut tail = gen_bytes(&mut r, extra);
+            // small values make plausible pointers and lengths more often
+            if r.chance(1, 2) { for x in tail.iter_mut() { if r.chance(3, 4) { *x = if r.chance(1, 3) { r.below(120) as u8 } else { 0 }; } } }
+            d.extend(tail);
+            cases.push(acase(["random.bytes", "random.after_magic", "random.after_header", "random.after_index"][i % 4], &small, &d));
+        }
+        cases
+    }
+
+    //--- worker (child process): one case per request line, one answer line per operation, then an end line
+
+    fn ops_for(names: &[String]) -> Vec<String> {
+        let mut v = vec!["open".to_string(), "load_state".to_string()];
+        for i in 0..names.len() { v.push(format!("load_object:{}", i)); }
+        v.push("objects".into());
+        v.push("try_open".into());
+        v.push("verify".into());
+        v
+    }
+
+    fn failed(e: routinator::error::RunFailed) -> &'static str { if e.is_fatal() { "AFatal" } else { "ARetry" } }
+
+    pub fn worker() {
+        std::panic::set_hook(Box::new(|info| {
+            // the location of the first panic of an operation is reported with its outcome
+            let at = info.location().map(|l| format!("{}:{}:{}", l.file(), l.line(), l.column())).unwrap_or_default();
+            let mut g = PANIC_AT.lock().unwrap_or_else(|e| e.into_inner());
+            if g.is_none() { *g = Some(at); }
+        }));
+        CAP.store(ALLOC_CAP, SeqCst);
+        let stdin = std::io::stdin();
+        let mut line = String::new();
+        loop {
+            line.clear();
+            if stdin.lock().read_line(&mut line).unwrap_or(0) == 0 { return }
+            let req: Value = serde_json::from_str(&line).expect("worker request");
+            let data = unrle(&req["bytes"]);
+            let names: Vec<String> = req["names"].as_array().unwrap().iter().map(|s| s.as_str().unwrap().to_string()).collect();
+            let uris: Vec<uri::Rsync> = names.iter().map(|s| rsync(s)).collect();
+            // the place the RRDP collector keeps the archive of a repository: <cache>/rrdp/<authority>/<hash>.bin
+            let dir = tempfile::tempdir().expect("tempdir");
+            let rdir = dir.path().join("rrdp").join("example.net");
+            std::fs::create_dir_all(&rdir).unwrap();
+            let path: PathBuf = rdir.join("5f0c3a1e9b7d.bin");
+            let arc = Arc::new(path.clone());
+            m_reset();
+            let mut handle: Option<RrdpArchive> = None;
+            for op in ops_for(&names) {
+                // reading never changes the file, but a corrupt-archive error removes it
+                if std::fs::metadata(&path).map(|m| m.len() != data.len() as u64).unwrap_or(true) { std::fs::write(&path, &data).unwrap(); }
+                *PANIC_AT.lock().unwrap_or_else(|e| e.into_inner()) = None;
+                let before = LARGEST.load(SeqCst);
+                let mut detail = Value::Null;
+                let r = catch_unwind(AssertUnwindSafe(|| -> &'static str {
+                    let name = op.split(':').next().unwrap();
+                    if handle.is_none() && !matches!(name, "open" | "try_open" | "verify") { return "ASkipped" }
+                    m_start();
+                    let out = match name {
+                        "open" => match RrdpArchive::open(arc.clone()) { Ok(a) => { handle = Some(a); "AOk" } Err(e) => failed(e) },
+                        "try_open" => match RrdpArchive::try_open(arc.clone()) { Ok(a) => { drop(a); "AOk" } Err(e) => failed(e) },
+                        "verify" => match RrdpArchive::verify(&path) {
+                            Ok(s) => { detail = json!({"objects": s.object_count, "free": s.empty_count}); "AOk" }
+                            Err(e) => { let t = format!("{:?}", e); m_stop(); detail = json!(t); "ARetry" }
+                        },
+                        "load_state" => match handle.as_ref().unwrap().load_state() { Ok(s) => { let n = s.serial; m_stop(); detail = json!({"serial": n}); "AOk" } Err(e) => failed(e) },
+                        "load_object" => {
+                            let i: usize = op.split(':').nth(1).unwrap().parse().unwrap();
+                            match handle.as_ref().unwrap().load_object(&uris[i]) {
+                                Ok(Some(d)) => { let n = d.len(); drop(d); m_stop(); detail = json!({"len": n}); "AOk" }
+                                Ok(None) => { m_stop(); detail = json!("absent"); "AOk" }
+                                Err(e) => failed(e),
+                            }
+                        }
+                        "objects" => match handle.as_ref().unwrap().objects() {
+                            Err(e) => failed(e),
+                            Ok(iter) => {
+                                // the collector stops at the first error (`item?`)
+                                let mut n = 0u64;
+                                let mut out = "AOk";
+                                for item in iter {
+                                    match item { Ok(x) => { drop(x); n += 1 } Err(e) => { out = failed(e); break } }
+                                    if n > ITER_CAP { out = "AEndless"; break }
+                                }
+                                m_stop();
+                                detail = json!({"items": n});
+                                out
+                            }
+                        },
+                        k => panic!("unknown operation {}", k),
+                    };
+                    m_stop();
+                    out
+                }));
+                m_stop();
+                let out = match r {
+                    Ok(o) => o,
+                    Err(p) => {
+                        let at = PANIC_AT.lock().unwrap_or_else(|e| e.into_inner()).take().unwrap_or_default();
+                        detail = json!({"panic": panic_text(p), "at": at});
+                        "APanic"
+                    }
+                };
+                let largest = LARGEST.load(SeqCst);
+                say(json!({"op": op, "out": out, "detail": detail, "grew_largest": largest > before, "largest": largest}));
+            }
+            drop(handle);
+            say(json!({"end": true, "largest": LARGEST.load(SeqCst), "peak": PEAK.load(SeqCst)}));
+        }
+    }
+
+    static PANIC_AT: Mutex<Option<String>> = Mutex::new(None);
+
+    fn say(v: Value) {
+        let mut o = std::io::stdout().lock();
+        writeln!(o, "{}", v).unwrap();
+        o.flush().unwrap();
+    }
+
+    //--- parent side
+
+    struct AWorker { child: Child, stdin: ChildStdin, rx: Receiver<String> }
+    static AWORKER: Mutex<Option<AWorker>> = Mutex::new(None);
+
+    fn spawn() -> AWorker {
+        let mut child = Command::new(std::env::current_exe().unwrap()).arg("aworker")
+            .stdin(Stdio::piped()).stdout(Stdio::piped()).stderr(Stdio::piped()).spawn().expect("spawn worker");
+        let stdin = child.stdin.take().unwrap();
+        let out = child.stdout.take().unwrap();
+        let (tx, rx) = channel::<String>();
+        std::thread::spawn(move || {
+            for line in BufReader::new(out).lines() {
+                match line { Ok(l) => { if tx.send(l).is_err() { break } } Err(_) => break }
+            }
+        });
+        AWorker { child, stdin, rx }
+    }
+
+    pub fn run_case(input: &Value) -> CaseOut {
+        let names: Vec<String> = input["names"].as_array().unwrap().iter().map(|s| s.as_str().unwrap().to_string()).collect();
+        let data = unrle(&input["bytes"]);
+        let ops = ops_for(&names);
+        let secs = std::env::var("C27_CASE_TIMEOUT").ok().and_then(|s| s.parse().ok()).unwrap_or(90);
+        let deadline = Instant::now() + Duration::from_secs(secs);
+        let mut guard = AWORKER.lock().unwrap();
+        if guard.is_none() { *guard = Some(spawn()); }
+        let w = guard.as_mut().unwrap();
+        let sent = writeln!(w.stdin, "{}", json!({"names": names, "bytes": input["bytes"]})).and_then(|_| w.stdin.flush()).is_ok();
+        let mut answers: Vec<Value> = Vec::new();
+        let mut end: Option<Value> = None;
+        let mut how = "";
+        while sent {
+            let now = Instant::now();
+            if now >= deadline { how = "timeout"; break }
+            match w.rx.recv_timeout(deadline - now) {
+                Ok(l) => {
+                    let v: Value = serde_json::from_str(&l).expect("worker answer");
+                    if v["end"] == true { end = Some(v); break }
+                    answers.push(v);
+                }
+                Err(RecvTimeoutError::Timeout) => { how = "timeout"; break }
+                Err(RecvTimeoutError::Disconnected) => { how = "died"; break }
+            }
+        }
+        let mut death = Value::Null;
+        if end.is_none() {
+            let mut w = guard.take().unwrap();
+            if how == "timeout" { let _ = w.child.kill(); }
+            drop(w.stdin);
+            let status = w.child.wait().map(|s| s.to_string()).unwrap_or_else(|e| e.to_string());
+            let mut err = String::new();
+            if let Some(mut e) = w.child.stderr.take() { let _ = e.read_to_string(&mut err); }
+            let err = err.trim().lines().last().unwrap_or("").to_string();
+            death = json!({"how": if how == "timeout" { format!("no answer within {} s, killed", secs) } else { "process died".to_string() },
+                           "status": status, "stderr": err});
+        }
+        drop(guard);
+        // outcome per operation: the operation in progress when the worker went away is ADied, later ones ASkipped
+        let mut outs: Vec<String> = Vec::new();
+        let mut obs_ops: Vec<Value> = Vec::new();
+        for (i, op) in ops.iter().enumerate() {
+            if let Some(a) = answers.get(i) {
+                assert_eq!(a["op"].as_str(), Some(op.as_str()));
+                outs.push(a["out"].as_str().unwrap().to_string());
+                obs_ops.push(json!({"op": op, "out": a["out"], "detail": a["detail"], "largest_so_far": a["largest"]}));
+            } else if i == answers.len() {
+                outs.push(if how == "timeout" { "AHang".into() } else { "ADied".into() });
+                obs_ops.push(json!({"op": op, "out": outs[i], "detail": death}));
+            } else {
+                outs.push("ASkipped".into());
+            }
+        }
+        let largest = end.as_ref().map(|e| e["largest"].as_u64().unwrap())
+            .or_else(|| answers.last().map(|a| a["largest"].as_u64().unwrap())).unwrap_or(0);
+        let peak = end.as_ref().map(|e| e["peak"].as_u64().unwrap()).unwrap_or(0);
+        let obs = json!({"file_len": data.len(), "operations": obs_ops, "largest_allocation": largest, "peak_allocated": peak});
+        let coq = format!("{{| a_len := {}; a_ops := {}; a_alloc := {} |}}", data.len(), coq_list(outs.iter(), |s| s.clone()), largest);
+        // non-trivial: the file was opened (something behind the 30-byte header was read)
+        let nontrivial = outs.first().map(|s| s == "AOk").unwrap_or(false);
+        CaseOut { obs, coq, nontrivial }
+    }
+}
+
 fn main() {
     if std::env::args().nth(1).as_deref() == Some("worker") { return worker() }
+    if std::env::args().nth(1).as_deref() == Some("aworker") { return archives::worker() }
     drive(gen, run)
 }
